@@ -20,58 +20,77 @@ def absz(x):
 
 
 def witness(env):
-    """floor witness W = q*s taken from the implementation's own division by the step (concrete replays
-    compute it directly)."""
+    """Candidate floor values: the multiple q*B taken from the implementation's own division by the step
+    (B = +/- step) and its two neighbours q*B +/- |s| -- all multiples of the step by construction. Concrete
+    replays compute the floor directly. Returns (candidates, side conditions)."""
     d, s = T(env, "d"), T(env, "s")
     divs = env.get("__divs")
     if divs is None:  # concrete judging of a native result
         m = absz(s)
-        return None, m * (d / m), []   # z3 `/` on Int is floor division for a positive divisor
+        return [m * (d / m)], []   # z3 `/` on Int is floor division for a positive divisor
     cands = [rec for rec in divs if rec is not None]
     if not cands:
-        return None, None, None
+        return None, None
     A, B, q, r, kind = cands[0]
-    W = env["__mul"](q, B)
-    return (A, B), W, [A == d, B == s]
+    W0 = env["__mul"](q, B)
+    return [W0 - absz(s), W0, W0 + absz(s)], [A == d, z3.Or(B == s, B == -s)]
+
+
+def _floor_is(env, R_pred):
+    """exists a candidate W that is the greatest multiple <= d and satisfies R_pred(W)"""
+    d, s = T(env, "d"), T(env, "s")
+    Ws, side = witness(env)
+    if Ws is None:
+        return None
+    return z3.And(*side, z3.Or([z3.And(W <= d, d - W < absz(s), R_pred(W)) for W in Ws]))
 
 
 def post_floor(env, ret, refs):
     d, s = T(env, "d"), T(env, "s")
     R = dur_total(ret)
     zero_case = z3.Implies(s == 0, R == 0)
-    ab, W, side = witness(env)
-    if W is None:
+    body = _floor_is(env, lambda W: R == clampz(W))
+    if body is None:
         return z3.And(is_canon(ret), zero_case, s == 0)  # no division on this path: only legal for a zero step
-    return z3.And(is_canon(ret), zero_case,
-                  z3.Implies(s != 0, z3.And(*side, W <= d, d - W < absz(s), R == clampz(W))))
+    return z3.And(is_canon(ret), zero_case, z3.Implies(s != 0, body))
 
 
 def post_ceil(env, ret, refs):
     d, s = T(env, "d"), T(env, "s")
     R = dur_total(ret)
     zero_case = z3.Implies(s == 0, R == 0)
-    ab, W, side = witness(env)
-    if W is None:
+    body = _floor_is(env, lambda W: z3.Or(R == clampz(W + absz(s)), R == clampz(clampz(W) + absz(s))))
+    if body is None:
         return z3.And(is_canon(ret), zero_case, s == 0)
-    return z3.And(is_canon(ret), zero_case,
-                  z3.Implies(s != 0, z3.And(*side, W <= d, d - W < absz(s),
-                                            z3.Or(R == clampz(W + absz(s)), R == clampz(clampz(W) + absz(s))))))
+    return z3.And(is_canon(ret), zero_case, z3.Implies(s != 0, body))
 
 
 def post_round(env, ret, refs):
     d, s = T(env, "d"), T(env, "s")
     R = dur_total(ret)
     zero_case = z3.Implies(s == 0, R == 0)
-    ab, W, side = witness(env)
-    if W is None:
+
+    def pred(W):
+        C = W + absz(s)
+        nosat = z3.And(W >= DMIN, C <= DMAX)
+        nearer = z3.If(d - W < C - d, W, C)   # ties go up
+        return z3.And(z3.Implies(nosat, R == nearer),
+                      z3.Or(R == clampz(W), R == clampz(C), R == clampz(clampz(W) + absz(s))))
+    body = _floor_is(env, pred)
+    if body is None:
         return z3.And(is_canon(ret), zero_case, s == 0)
-    C = W + absz(s)
-    nosat = z3.And(W >= DMIN, C <= DMAX)
-    nearer = z3.If(d - W < C - d, W, C)   # ties go up
-    return z3.And(is_canon(ret), zero_case,
-                  z3.Implies(s != 0, z3.And(*side, W <= d, d - W < absz(s),
-                                            z3.Implies(nosat, R == nearer),
-                                            z3.Or(R == clampz(W), R == clampz(C), R == clampz(clampz(W) + absz(s))))))
+    return z3.And(is_canon(ret), zero_case, z3.Implies(s != 0, body))
+
+
+def epoch_post(dpost):
+    """Epoch::floor/ceil/round: same operation on the elapsed time in the epoch's own scale; scale kept"""
+    def post(env, ret, refs):
+        c, n, ts = env["e"]
+        env2 = dict(env)
+        env2["d"] = (c, n)
+        rd, rts = ret.fields[0], ret.fields[1]
+        return z3.And(rts.discr == ts, dpost(env2, rd, refs))
+    return post
 
 
 def obligations(tier, seed):
@@ -87,4 +106,11 @@ def obligations(tier, seed):
         MirOb("c14_round", f"round@{M}", ins, post_round,
               "round(d, s) = nearer of floor and ceil, ties up; one of the two at the bounds; 0 for a zero step", "round",
               functions=fns + ["impl Sub for Duration", "Duration::abs", "derived PartialOrd"], uf_mul=True, pin_vars=["s_c", "s_n"], min_paths=3),
+        MirOb("c14_epoch_floor", "floor@src/epoch/ops.rs", [In("e", "&Epoch"), In("s", "Duration")], epoch_post(post_floor),
+              "Epoch::floor acts on the elapsed time in the epoch's own time scale (all nine scales, before and after the reference) and keeps the scale",
+              "epoch_floor", functions=fns + ["Epoch::floor", "Epoch::from_duration"], uf_mul=True, pin_vars=["s_c", "s_n"], ret_shape="Epoch", min_paths=3),
+        MirOb("c14_epoch_ceil", "ceil@src/epoch/ops.rs", [In("e", "&Epoch"), In("s", "Duration")], epoch_post(post_ceil),
+              "Epoch::ceil: same on the elapsed time, scale kept", "epoch_ceil", functions=fns + ["Epoch::ceil"], uf_mul=True, pin_vars=["s_c", "s_n"], ret_shape="Epoch", min_paths=3),
+        MirOb("c14_epoch_round", "round@src/epoch/ops.rs", [In("e", "&Epoch"), In("s", "Duration")], epoch_post(post_round),
+              "Epoch::round: same on the elapsed time, scale kept", "epoch_round", functions=fns + ["Epoch::round"], uf_mul=True, pin_vars=["s_c", "s_n"], ret_shape="Epoch", min_paths=3),
     ]
